@@ -45,9 +45,9 @@ pub struct Case {
     pub steps: Vec<Step>,
 }
 
-fn run_step(s: &Step, dir: &std::path::Path, _tag: &str, out: &std::path::Path) -> Outcome {
-    let input = dir.join(format!("in_slot{}.fa", s.slot));
-    let altp = dir.join(format!("alt_slot{}.fa", s.slot));
+fn run_step(s: &Step, dir: &std::path::Path, tag: &str, out: &std::path::Path) -> Outcome {
+    // the reference run is fresh in every respect: its own copies of the input files, its own output location
+    let (input, altp) = if tag == "fresh" { (dir.join("in_fresh_location.fa"), dir.join("alt_fresh_location.fa")) } else { (dir.join(format!("in_slot{}.fa", s.slot)), dir.join(format!("alt_slot{}.fa", s.slot))) };
     place(&input, &io::serialise(&s.recs, &Container::plain_fasta()), s.keep_mtime);
     place(&altp, &io::serialise(&s.alt, &Container::plain_fasta()), s.keep_mtime);
     if s.via_cli {
